@@ -1030,32 +1030,36 @@ func R2DecryptOnce(c *Ctx) {
 				// the guarding flag: a header phi, true on entry
 				var guard *ssa.If
 				var flag *ssa.Phi
+				firstRound := true
 				for _, f := range FactsAt(call.Block()) {
-					ph, ok := f.Cond.(*ssa.Phi)
-					if !ok || !f.Truth || ph.Block() != l.header {
+					cond, truth := StripNot(f.Cond, f.Truth)
+					ph, ok := cond.(*ssa.Phi)
+					if !ok || ph.Block() != l.header {
 						continue
 					}
-					entryTrue, backFalse := false, true
+					// the flag has the value `truth` here (first round) and the opposite value on every back edge
+					entryOK, backOK := false, true
 					for i, e := range ph.Edges {
 						if !l.body[l.header.Preds[i]] {
-							entryTrue = isBoolConst(e, true)
+							entryOK = isBoolConst(e, truth)
 							continue
 						}
-						// back edge: false, or the flag itself where the guard was not passed
-						if !isBoolConst(e, false) {
+						// back edge: the opposite constant, or the flag itself where the guard was not passed
+						if !isBoolConst(e, !truth) {
 							if ep, isPhi := e.(*ssa.Phi); isPhi {
 								for _, e2 := range ep.Edges {
-									if !isBoolConst(e2, false) && e2 != ssa.Value(ph) {
-										backFalse = false
+									if !isBoolConst(e2, !truth) && e2 != ssa.Value(ph) {
+										backOK = false
 									}
 								}
 							} else if e != ssa.Value(ph) {
-								backFalse = false
+								backOK = false
 							}
 						}
 					}
-					if entryTrue && backFalse {
+					if entryOK && backOK {
 						guard, flag = f.If, ph
+						firstRound = truth
 					}
 				}
 				if guard == nil {
@@ -1074,7 +1078,8 @@ func R2DecryptOnce(c *Ctx) {
 					}
 					known := false
 					for _, f := range FactsAt(pred) {
-						if f.Cond == ssa.Value(flag) && !f.Truth {
+						cond, truth := StripNot(f.Cond, f.Truth)
+						if cond == ssa.Value(flag) && truth != firstRound {
 							known = true
 						}
 					}
